@@ -5,8 +5,15 @@
 // that replica's own store (cookie, decoded content, name, mime, pairs, last-modified, ttl, stored
 // compressed) plus what a client sees when it GETs the fid from that replica (read mode "local").
 //
+// An upload enters by one of several ways (input "via"): "mp" = a multipart POST typed here; "reader" /
+// "breader" = operation.Upload with a plain io.Reader / a *util.BytesReader (the way of the filer and S3
+// paths); "ereader" = operation.Upload with a reader that fails half way; "data" = operation.UploadData; all
+// but the first with "cipher" = client-side encryption inside
+// doUploadData (the upload result carries the key). A needle whose stored bytes decrypt with a key returned
+// for that file id in this execution is recorded decrypted (dec = "key", ct = hash token of the ciphertext).
+//
 // Script ops (inputs only; tokens are mapped to real values here):
-//   upload{to,k,c,d,name,mime,pairs,ts,ttl,gz,fsync}   delete{to,k,c}
+//   upload{to,k,c,d,name,mime,pairs,ts,ttl,gz,fsync,via,cipher}   delete{to,k,c}
 //   fault{kind: ro|rw|unmount|mount|voldelete, r}
 //   race{k,c,to1,d1,to2,d2}     two uploads for one file id at the same time
 // reset carries {repl, vttl, n (copy count), keys}.
@@ -20,7 +27,9 @@ import (
 	"crypto/sha1"
 	"encoding/json"
 	"fmt"
+	"io"
 	"io/ioutil"
+	"math/rand"
 	"mime/multipart"
 	"net/http"
 	"net/textproto"
@@ -31,10 +40,12 @@ import (
 	"sync"
 	"time"
 
+	"github.com/chrislusf/seaweedfs/weed/operation"
 	"github.com/chrislusf/seaweedfs/weed/pb/volume_server_pb"
 	"github.com/chrislusf/seaweedfs/weed/storage"
 	"github.com/chrislusf/seaweedfs/weed/storage/needle"
 	"github.com/chrislusf/seaweedfs/weed/storage/types"
+	"github.com/chrislusf/seaweedfs/weed/util"
 
 	"verifharness/cluster"
 	"verifharness/tr"
@@ -53,6 +64,16 @@ var datas = map[string][]byte{
 	"p": append([]byte{0x89, 'P', 'N', 'G', 0x0d, 0x0a, 0x1a, 0x0a}, bytes.Repeat([]byte{0, 1, 2, 3}, 8)...),
 	"h": []byte("<html><body>hello</body></html>"),
 	"Z": gz(bytes.Repeat([]byte("body { margin: 0; padding: 0 }\n"), 300)), // a real gzip file, uploaded as opaque bytes
+	// > 16 KiB without a mime type to sniff and without a telling name: the client library test-compresses the head
+	"B": bytes.Repeat([]byte{0x00, 0x01, 0x02, 0x03, 0xfe, 0xff, 0x10, 0x11, 0x7f, 0x80, 0x05}, 1900), // 20900 bytes, compressible
+	"R": noise(20000),                                                                              // incompressible
+}
+
+func noise(n int) []byte {
+	b := make([]byte, n)
+	rand.New(rand.NewSource(40)).Read(b)
+	b[0], b[1], b[2], b[3] = 0x00, 0x05, 0x07, 0x01 // nothing http.DetectContentType knows
+	return b
 }
 
 var names = map[string]string{
@@ -117,6 +138,140 @@ var quoteEscaper = strings.NewReplacer(`\`, `\\`, `"`, `\"`)
 type runner struct {
 	c    *cluster.Cluster
 	http *http.Client
+	// the cipher keys the upload results of this execution carried, per key of the execution (newest last)
+	ckeys map[int][][]byte
+}
+
+// plainReader hides every other method of the reader it wraps (doUpload then has to ReadAll)
+type plainReader struct{ r io.Reader }
+
+func (p plainReader) Read(b []byte) (int, error) { return p.r.Read(b) }
+
+// brokenReader delivers the first half of its bytes and then fails (way "ereader": the upload must not happen)
+type brokenReader struct {
+	b   []byte
+	off int
+}
+
+func (p *brokenReader) Read(b []byte) (int, error) {
+	if p.off >= len(p.b)/2 {
+		return 0, io.ErrUnexpectedEOF
+	}
+	n := copy(b, p.b[p.off:len(p.b)/2])
+	p.off += n
+	return n, nil
+}
+
+// pairToken: which pair set of the table the stored pairs are (header names are case-insensitive)
+func pairToken(m map[string]string) string {
+	for _, t := range []string{"p0", "p1", "p2"} {
+		ps := pairSets[t]
+		if len(ps) != len(m) {
+			continue
+		}
+		same := true
+		for _, p := range ps {
+			found := false
+			for k, v := range m {
+				if strings.EqualFold(needle.PairNamePrefix+k, p[0]) && v == p[1] {
+					found = true
+				}
+			}
+			same = same && found
+		}
+		if same {
+			return t
+		}
+	}
+	return "?"
+}
+
+// decrypt: the bytes decrypted with the key returned for k that opens them, and that key's name ("k1" = the
+// first one an upload of k returned in this execution)
+func (r *runner) decrypt(k int, b []byte) ([]byte, string) {
+	for i, key := range r.ckeys[k] {
+		if pt, err := util.Decrypt(b, util.CipherKey(key)); err == nil {
+			return pt, fmt.Sprintf("k%d", i+1)
+		}
+	}
+	return nil, ""
+}
+
+// uploadVia: the upload through the client library (operation.Upload / operation.UploadData)
+func (r *runner) uploadVia(vid uint32, e tr.Ev, via string) {
+	body := datas[tr.S(e, "d")]
+	if tr.B(e, "gz") {
+		body = gz(body)
+	}
+	u := "http://" + r.c.Volumes[tr.I(e, "to")].Url + "/" + fid(vid, tr.I(e, "k"), tr.S(e, "c"))
+	if q := uploadQuery(e); q != "" {
+		u += "?" + q
+	}
+	var pairMap map[string]string
+	if ps := pairSets[tr.S(e, "pairs")]; len(ps) > 0 {
+		pairMap = map[string]string{}
+		for _, p := range ps {
+			pairMap[p[0]] = p[1]
+		}
+	}
+	name, mtype, cipher, isGz := names[tr.S(e, "name")], mimes[tr.S(e, "mime")], tr.B(e, "cipher"), tr.B(e, "gz")
+	var res *operation.UploadResult
+	var err error
+	switch via {
+	case "reader":
+		res, err, _ = operation.Upload(u, name, cipher, plainReader{bytes.NewReader(body)}, isGz, mtype, pairMap, "")
+	case "ereader":
+		res, err, _ = operation.Upload(u, name, cipher, &brokenReader{b: body}, isGz, mtype, pairMap, "")
+	case "breader":
+		res, err, _ = operation.Upload(u, name, cipher, util.NewBytesReader(body), isGz, mtype, pairMap, "")
+	case "data":
+		res, err = operation.UploadData(u, name, cipher, body, isGz, mtype, pairMap, "")
+	default:
+		tr.Fatal("unknown way %q", via)
+	}
+	e["status"] = 0
+	if err != nil || res == nil {
+		e["res"] = "err"
+		if err != nil {
+			m := err.Error()
+			// "unmarshalled error http://host:port/fid?query: <the server's message>": keep the message
+			if i := strings.Index(m, "unmarshalled error "); i >= 0 {
+				if j := strings.Index(m[i:], ": "); j >= 0 {
+					m = m[i+j+2:]
+				}
+			}
+			for _, v := range r.c.Volumes {
+				m = strings.Replace(m, v.Url, "vs", -1)
+			}
+			e["msg"] = errText([]byte(m))
+		}
+		return
+	}
+	e["res"] = "ok"
+	e["rsize"] = int(res.Size)
+	e["rgz"] = res.Gzip > 0
+	if len(res.CipherKey) > 0 {
+		k := tr.I(e, "k")
+		r.ckeys[k] = append(r.ckeys[k], append([]byte{}, res.CipherKey...))
+		e["kid"] = fmt.Sprintf("k%d", len(r.ckeys[k]))
+	}
+}
+
+func uploadQuery(e tr.Ev) string {
+	q := []string{}
+	switch tr.S(e, "ts") {
+	case "old":
+		q = append(q, fmt.Sprintf("ts=%d", oldTs))
+	case "zero":
+		q = append(q, "ts=0")
+	}
+	if t := tr.S(e, "ttl"); t != "" {
+		q = append(q, "ttl="+t)
+	}
+	if tr.B(e, "fsync") {
+		q = append(q, "fsync=true")
+	}
+	return strings.Join(q, "&")
 }
 
 func fid(vid uint32, k int, c string) string {
@@ -124,6 +279,19 @@ func fid(vid uint32, k int, c string) string {
 }
 
 func (r *runner) upload(vid uint32, e tr.Ev) {
+	via := tr.S(e, "via")
+	if via == "" {
+		via = "mp"
+	}
+	e["via"], e["cipher"] = via, tr.B(e, "cipher") && via != "mp"
+	e["unch"], e["msg"], e["rsize"], e["rgz"], e["kid"] = false, "", -1, false, ""
+	if _, ok := datas[tr.S(e, "d")]; !ok {
+		tr.Fatal("unknown payload %q", tr.S(e, "d"))
+	}
+	if via != "mp" {
+		r.uploadVia(vid, e, via)
+		return
+	}
 	body := datas[tr.S(e, "d")]
 	if tr.B(e, "gz") {
 		body = gz(body)
@@ -146,21 +314,8 @@ func (r *runner) upload(vid uint32, e tr.Ev) {
 	pw.Write(body)
 	mw.Close()
 	u := "http://" + r.c.Volumes[tr.I(e, "to")].Url + "/" + fid(vid, tr.I(e, "k"), tr.S(e, "c"))
-	q := []string{}
-	switch tr.S(e, "ts") {
-	case "old":
-		q = append(q, fmt.Sprintf("ts=%d", oldTs))
-	case "zero":
-		q = append(q, "ts=0")
-	}
-	if t := tr.S(e, "ttl"); t != "" {
-		q = append(q, "ttl="+t)
-	}
-	if tr.B(e, "fsync") {
-		q = append(q, "fsync=true")
-	}
-	if len(q) > 0 {
-		u += "?" + strings.Join(q, "&")
+	if q := uploadQuery(e); q != "" {
+		u += "?" + q
 	}
 	req, _ := http.NewRequest("POST", u, &buf)
 	req.Header.Set("Content-Type", mw.FormDataContentType())
@@ -168,8 +323,6 @@ func (r *runner) upload(vid uint32, e tr.Ev) {
 		req.Header[p[0]] = []string{p[1]} // as typed by the client (the server canonicalises)
 	}
 	resp, err := r.http.Do(req)
-	e["unch"] = false
-	e["msg"] = ""
 	if err != nil {
 		e["res"] = "err"
 		e["status"] = 0
@@ -195,7 +348,7 @@ func (r *runner) upload(vid uint32, e tr.Ev) {
 func (r *runner) race(vid uint32, e tr.Ev) {
 	mk := func(to interface{}, d interface{}, name, ts string) tr.Ev {
 		return tr.Ev{"to": to, "k": e["k"], "c": e["c"], "d": d, "name": name, "mime": "y3", "pairs": "p0", "ts": ts,
-			"ttl": "", "gz": false, "fsync": false}
+			"ttl": "", "gz": false, "fsync": false, "via": "mp", "cipher": false}
 	}
 	a, b := mk(e["to1"], e["d1"], "n1", "old"), mk(e["to2"], e["d2"], "n5", "none")
 	var wg sync.WaitGroup
@@ -255,7 +408,7 @@ func (r *runner) del(vid uint32, e tr.Ev) {
 // rread: what replica ri holds for key k. Store level first (all metadata), then the HTTP view.
 func (r *runner) rread(vid uint32, ri, k int) tr.Ev {
 	e := tr.Ev{"r": ri, "st": "err", "c": "", "d": "", "name": "", "mime": "", "pairs": "",
-		"lm": "", "ttl": "", "gz": false, "hst": 0, "hd": "", "ctype": ""}
+		"lm": "", "ttl": "", "gz": false, "hst": 0, "hd": "", "ctype": "", "ptok": "p0", "dec": "plain", "ct": ""}
 	node := r.c.Volumes[ri]
 	st := node.Server.VerifStore()
 	if !st.HasVolume(needle.VolumeId(vid)) {
@@ -274,6 +427,11 @@ func (r *runner) rread(vid uint32, ri, k int) tr.Ev {
 	default:
 		e["st"] = "data"
 		data := n.Data
+		if pt, kid := r.decrypt(k, data); kid != "" {
+			e["dec"] = kid
+			e["ct"] = fmt.Sprintf("#%d:%x", len(data), sha1.Sum(data))[:24]
+			data = pt
+		}
 		if n.IsCompressed() {
 			e["gz"] = true
 			if d, ok := gunzip(data); ok {
@@ -303,8 +461,10 @@ func (r *runner) rread(vid uint32, ri, k int) tr.Ev {
 					sb.WriteString(k + "=" + m[k] + "|")
 				}
 				e["pairs"] = sb.String()
+				e["ptok"] = pairToken(m)
 			} else {
 				e["pairs"] = "?" + string(n.Pairs)
+				e["ptok"] = "?"
 			}
 		}
 		if n.HasLastModifiedDate() {
@@ -332,6 +492,9 @@ func (r *runner) rread(vid uint32, ri, k int) tr.Ev {
 			if d, ok := gunzip(body); ok {
 				body = d
 			}
+		}
+		if pt, kid := r.decrypt(k, body); kid != "" {
+			body = pt
 		}
 		e["hd"] = dataToken(body)
 		e["ctype"] = resp.Header.Get("Content-Type")
@@ -404,6 +567,7 @@ func (r *runner) fault(vid uint32, e tr.Ev) {
 func (r *runner) runExec(ex []tr.Ev) []tr.Ev {
 	ctx := context.Background()
 	out := []tr.Ev{ex[0]}
+	r.ckeys = map[int][][]byte{}
 	repl := tr.S(ex[0], "repl")
 	n := tr.I(ex[0], "n")
 	keys := tr.Ints(ex[0]["keys"])
@@ -478,7 +642,7 @@ func main() {
 		next <- i
 	}
 	close(next)
-	for wk := 0; wk < 20; wk++ { // latency-bound: a failing fan-out is retried 3 times with 1.4 s of sleeps
+	for wk := 0; wk < 60; wk++ { // latency-bound: a failing fan-out is retried 3 times with 1.4 s of sleeps, a failing library upload 3 times on top
 		wg.Add(1)
 		go func() {
 			defer wg.Done()
